@@ -1,4 +1,4 @@
-* C08 generator: prints every ad shape x configuration of MC_C08_wire.cfg
+\* C08 generator: prints every ad shape x configuration of MC_C08_wire.cfg
 SPECIFICATION GenSpec
 CONSTANTS
   MaxAttrs = 3
